@@ -29,7 +29,7 @@ def base_program(rng):
 FAULTS = ["dup_label", "undef_label_operand", "undef_label_push", "undef_label_macro_arg", "undef_label_macro_body",
           "undef_imacro", "undef_emacro", "emacro_missing_arg", "imacro_arity_less", "imacro_arity_more",
           "dup_macro", "div_zero_const", "div_zero_label", "too_large", "negative", "dup_local_label",
-          "undef_variable", "imacro_as_expr", "recursive_imacro", "recursive_emacro"]
+          "undef_variable", "imacro_as_expr", "recursive_imacro", "recursive_emacro", "unbound_var_nested", "missing_arg_nested"]
 
 
 def inject(rng, prog, fault):
@@ -98,6 +98,17 @@ def inject(rng, prog, fault):
         p.insert(0, ("defi", "loopm", [], [("op", "pc", None), ("macro", "loopm", [])]))
         p.insert(max(pos, 1), ("macro", "loopm", []))
         exp = ("RecursionLimit", None)
+    elif fault == "unbound_var_nested":
+        # the callee binds nothing and uses $x; the caller binds x: must be reported, not captured
+        p.insert(0, ("defe", "innerq", [], G.climb([("var", "x"), "+", ("num", 1)])))
+        p.insert(0, ("defe", "outerq", ["x"], G.climb([("macro", "innerq", []), "*", ("num", 2)])))
+        p.insert(max(pos, 2), ("op", "push1", ("macro", "outerq", [("num", 5)])))
+        exp = ("UndeclaredVariableMacro", "x")
+    elif fault == "missing_arg_nested":
+        p.insert(0, ("defe", "innerq", ["x"], G.climb([("var", "x"), "+", ("lbl", "end")])))
+        p.insert(0, ("defe", "outerq", ["x"], ("macro", "innerq", [])))
+        p.insert(max(pos, 2), ("op", "push1", ("macro", "outerq", [("lbl", "start")])))
+        exp = ("UndeclaredVariableMacro", "x")
     elif fault == "recursive_emacro":
         p.insert(0, ("defe", "loope", [], ("macro", "loope", [])))
         p.insert(max(pos, 1), ("op", "push1", ("macro", "loope", [])))
